@@ -11,6 +11,7 @@ package nsqd
 import (
 	"encoding/json"
 	"fmt"
+	stdos "os"
 	"regexp"
 	"sort"
 	"strings"
@@ -99,6 +100,7 @@ type lCons struct {
 	gen       int
 	newDeliv  int
 	fatal     bool
+	rdyAfterCls bool
 }
 
 type hworld struct {
@@ -186,6 +188,10 @@ func (h *hworld) Menu() []string {
 			if r != c.rdy && !c.closing {
 				m = append(m, fmt.Sprintf("rdy:%s:%d", n, r))
 			}
+		}
+		if c.closing && !c.rdyAfterCls {
+			// RDY after CLS is ignored: nothing more may be sent
+			m = append(m, fmt.Sprintf("rdy:%s:1", n))
 		}
 		if len(c.lastIDs) > 0 {
 			m = append(m, "fin:"+n, "req:"+n+":0", "req:"+n+":300", "touch:"+n)
@@ -344,7 +350,11 @@ func (h *hworld) Apply(ev string) {
 		var r int64
 		fmt.Sscan(parts[2], &r)
 		c.conn.Cmd("RDY "+parts[2], nil)
-		c.rdy = r
+		if c.closing {
+			c.rdyAfterCls = true
+		} else {
+			c.rdy = r
+		}
 	case "cls":
 		c := h.cons[parts[1]]
 		c.conn.Cmd("CLS", nil)
@@ -421,6 +431,13 @@ func (h *hworld) Apply(ev string) {
 			}
 		}
 		h.chans["c"] = &lChan{name: "c", msgs: map[string]*lMsg{}}
+		if ents, err := stdos.ReadDir(w.Dir); err == nil && w.Channel(hTopic, "c") == nil {
+			for _, e := range ents {
+				if strings.HasPrefix(e.Name(), hTopic+":c.diskqueue.") {
+					h.bad("C08 disk file of a deleted channel left behind", "channel c was deleted, yet %s is still in the data directory", e.Name())
+				}
+			}
+		}
 	case "empty_t":
 		code, _ := w.Do("POST", "/topic/empty?topic="+hTopic, nil)
 		if code != 200 {
@@ -457,6 +474,7 @@ func (h *hworld) subscribe(n, chn string, unbuffered bool) *lCons {
 	c.gen++
 	c.conn = h.w.Dial(fmt.Sprintf("%s%d", n, c.gen))
 	c.ch, c.rdy, c.rdyPrev, c.connected, c.closing, c.sent, c.fins, c.reqs, c.lastIDs, c.fatal = chn, 0, 0, true, false, 0, 0, 0, nil, false
+	c.rdyAfterCls = false
 	if unbuffered {
 		f := c.conn.Identify(map[string]interface{}{"client_id": n, "output_buffer_size": -1})
 		if string(f.Data) != "OK" {
@@ -985,7 +1003,7 @@ func (h *hworld) Key() string {
 		if len(c.lastIDs) > 0 {
 			last = h.byID[c.lastIDs[len(c.lastIDs)-1]]
 		}
-		fmt.Fprintf(&sb, "|%s on %s rdy%d cls%v last%s", n, c.ch, c.rdy, c.closing, last)
+		fmt.Fprintf(&sb, "|%s on %s rdy%d cls%v%v last%s", n, c.ch, c.rdy, c.closing, c.rdyAfterCls, last)
 	}
 	return sb.String()
 }
